@@ -67,6 +67,26 @@ def run_e2e(args):
             except BaseException as e:  # noqa: BLE001
                 rec["runs"].append({"iface": "rust", "split": live[0], "shuffle": 0, "T": 2, "take": 0, "interleaved": True,
                                     "error": f"{type(e).__name__}: {str(e)[:200]}"})
+        # the re-entrant generator object behind the tf.data / Rust path, called again after the previous iterable was abandoned —
+        # after exactly one epoch, in the middle of one, after two: every call gives an endless stream of complete epochs
+        if I.supports("rust", a["fmt"], a["comp"]):
+            from sedpack.io.dataset_iteration import RustGenerator
+            for split in [s for s in written if written[s]][:1]:
+                N = len(written[split])
+                try:
+                    with RustGenerator(dataset=ds, split=split, repeat=True, file_parallelism=2, shuffle=0) as gen:
+                        for k in (N, max(1, N - 1), 2 * N, 1):
+                            it = iter(gen())
+                            for _ in range(k): next(it)
+                            it.close()
+                            take = 2 * N + 1
+                            got = []
+                            for e in gen():
+                                got.append(sp.ident(e))
+                                if len(got) >= take: break
+                            rec["runs"].append({"iface": "rust", "split": split, "shuffle": 0, "T": 2, "take": take, "got": got, "regen": k})
+                except BaseException as e:  # noqa: BLE001
+                    rec["runs"].append({"iface": "rust", "split": split, "shuffle": 0, "T": 2, "take": 0, "regen": -1, "error": f"{type(e).__name__}: {str(e)[:200]}"})
         # the same handle, after it has iterated: a further session adds shards, then repeating streams are started again — they
         # cycle through the whole split as it is now (a freshly opened dataset gives the reference enumeration)
         if a.get("append"):
@@ -134,7 +154,7 @@ def run(ctx):
             foreign = [x for x in got if x not in set(onepass)]
             if foreign:
                 ctx.report(dict(sig, kind="foreign"), f"{run_['iface']}: elements {foreign[:5]} are not examples of split {split}", {"case": r["case"], "run": run_}); continue
-            if run_["shuffle"] == 0:
+            if run_["shuffle"] == 0 and "regen" not in run_:
                 exp = [onepass[k % N] for k in range(len(got))]
                 if got != exp:
                     ctx.report(dict(sig, kind="not-periodic"), f"{run_['iface']} unshuffled repeat: {got[:2*N+2]} is not {onepass} repeated",
